@@ -481,8 +481,6 @@ def static_tags(stmts) -> set:
     for s in stmts:
         if s[0] == "decl":
             walk(s[3])
-            if nested(s[3]):
-                tags.add("nested-merge")
     if any(r in other_use for r in gated):
         tags.add("bundle-gate-lock")
     return tags
@@ -581,9 +579,6 @@ def run_case(case: dict) -> dict:
                     continue
                 exp = env.get(name)
                 if not isinstance(exp, lang.Bun) or exp.unknown:
-                    continue
-                if _is_pure_merge(by_name[name], by_name) and "merge-anchor" in excl:
-                    probe(res, "known_finding_merge_anchor_not_judged")
                     continue
                 got = obs.read_anchor(name)
                 if got is None:
